@@ -79,6 +79,12 @@ class C10:
         if kind == "status":
             cfg["transient"] = True
             cfg["redirect"] = True  # Status builds its Live with the default redirection
+        if kind == "progress" and not cfg["auto_refresh"] and rng.random() < 0.35:
+            # the stock columns (description, bar, percentage, time remaining): expected frames come
+            # from a mirror Progress that is never started and receives the same operations at the
+            # same virtual instants (frozen clock, no refresh thread: no timer can fire in between)
+            cfg["columns"] = "default"
+            cfg["clock"] = "frozen"
         nops = rng.randint(1, 40 if thorough else 12)
         ops = []
         st = {"n": 0, "f": 0, "tasks": 0, "alive": 0}
@@ -262,7 +268,9 @@ class Program:
         self.in_client_op = False
         self.frame_at_op_begin = None
         self.probes = {"restart": 0, "render_calls": 0, "body_fault_fired": 0, "render_fault_fired": 0, "base_exception_faults": 0,
-                       "fault_in_helper_thread": 0, "print_while_live": 0, "stdout_lines": 0, "post_probe_ok": 0}
+                       "fault_in_helper_thread": 0, "print_while_live": 0, "progress_stock_columns": 0, "stdout_lines": 0, "post_probe_ok": 0}
+        if cfg.get("columns") == "default":
+            self.probes["progress_stock_columns"] = 1
         self.stdout_sentinel = sys.stdout
         self.stderr_sentinel = sys.stderr
         self._build_display()
@@ -301,11 +309,18 @@ class Program:
                     counter.tick()
                     return Text("%s/%s" % (task.completed, task.total))
 
-            self.display = Progress("{task.description}", CountColumn(), console=self.console,
+            cols = () if cfg.get("columns") == "default" else ("{task.description}", CountColumn())
+            self.display = Progress(*cols, console=self.console,
                                     auto_refresh=cfg["auto_refresh"], refresh_per_second=cfg["rps"],
                                     transient=cfg["transient"], redirect_stdout=cfg["redirect"],
                                     redirect_stderr=cfg["redirect"], get_time=self.clock.time)
             self.ids = []
+            self.mirror = None
+            if cfg.get("columns") == "default":
+                self.mirror = Progress(console=self.pristine.console(), auto_refresh=False, get_time=self.clock.time)
+                self.mirror_ids = []
+                self.mirror_tab = self.mirror.get_renderable()
+                self.mirror_before = None
 
     # -- expected frames -----------------------------------------------------
     def _frame_rows(self, desc, final):
@@ -371,6 +386,18 @@ class Program:
             # cursor accounting must still be exact)
             if self.frame_at_op_begin is not None and self.frame_at_op_begin not in out:
                 out.append(self.frame_at_op_begin)
+        if self.mirror is not None:
+            tabs = [self.mirror_tab]
+            if self.mirror_before is not None and why in ("helper", "print"):
+                tabs.append(self.mirror_before)
+            for tab in tabs:
+                key = ("tab", id(tab))
+                if key not in self.frame_cache:
+                    self.frame_cache[key] = (tab, self.pristine.rows(lambda c: c.print(tab)))
+                fr = self.frame_cache[key][1]
+                if fr not in out:
+                    out.append(fr)
+            return out
         states = [self._alive(self.tasks)]
         if self.model_before is not None and why in ("helper", "print"):
             states.append(self._alive(self.model_before))
@@ -542,6 +569,7 @@ class Program:
             o.end_op()
         elif k == "add":
             self._model_op(lambda ts: ts.append({"description": op[1], "total": op[2], "completed": 0, "visible": op[3]}))
+            self._mirror(lambda m: self.mirror_ids.append(m.add_task(op[1], total=op[2], visible=op[3])))
             o.begin_op(op, [("frame",)])
             tid = self.display.add_task(op[1], total=op[2], visible=op[3])
             self.ids.append(tid)
@@ -554,6 +582,7 @@ class Program:
             tid = self.ids[i]
             if k == "advance":
                 self._model_op(lambda ts: ts[i].__setitem__("completed", ts[i]["completed"] + op[2]))
+                self._mirror(lambda m: m.advance(self.mirror_ids[i], op[2]))
                 o.begin_op(op, [])
                 self.display.advance(tid, op[2])
             elif k == "upd":
@@ -565,14 +594,17 @@ class Program:
                             ts[i][key] = a[key]
 
                 self._model_op(mut)
+                self._mirror(lambda m: m.update(self.mirror_ids[i], **{k: v for k, v in a.items() if k != "refresh"}))
                 o.begin_op(op, [("frame",)] if a.get("refresh") else [])
                 self.display.update(tid, **a)
             elif k == "remove":
                 self._model_op(lambda ts: ts[i].__setitem__("removed", True))
+                self._mirror(lambda m: m.remove_task(self.mirror_ids[i]))
                 o.begin_op(op, [])
                 self.display.remove_task(tid)
             else:
                 self._model_op(lambda ts: ts[i].__setitem__("completed", 0))
+                self._mirror(lambda m: m.reset(self.mirror_ids[i]))
                 o.begin_op(op, [("frame",)])
                 self.display.reset(tid)
             self._model_done()
@@ -586,6 +618,17 @@ class Program:
 
     def _model_done(self):
         self.model_before = None
+        if self.mirror is not None:
+            self.mirror_before = None
+
+    def _mirror(self, fn):
+        """Apply the same operation to the mirror Progress, atomically, at the same virtual instant."""
+        if self.mirror is None:
+            return
+        with self.sim.atomic():
+            self.mirror_before = self.mirror_tab
+            fn(self.mirror)
+            self.mirror_tab = self.mirror.get_renderable()
 
     # -- post conditions -----------------------------------------------------
     def post_checks(self):
